@@ -232,12 +232,47 @@ func (m *svMod) op(e *lib.Env, st Step) (string, lib.Outcome) {
 	panic("service: unknown op " + st.K)
 }
 
-func genSV(r *lib.Rand, h *History) {
+func svSweep() []func(*SVParams) {
+	var fs []func(*SVParams)
+	for _, v := range sweepRates() {
+		v := v
+		fs = append(fs, func(p *SVParams) { p.Tax = v }, func(p *SVParams) { p.Slash = v })
+	}
+	for _, v := range []int64{0, -1, 1, 5, 1 << 62, -(1 << 62)} {
+		v := v
+		fs = append(fs, func(p *SVParams) { p.MaxTO = v }, func(p *SVParams) { p.Mult = v })
+	}
+	for _, v := range sweepAmounts() {
+		v := v
+		fs = append(fs, func(p *SVParams) { p.MinDep = []Coin{{1, v}} })
+	}
+	for _, d := range []int{0, 2, 3} {
+		d := d
+		fs = append(fs, func(p *SVParams) { p.Base = d })
+	}
+	fs = append(fs, func(p *SVParams) { p.MinDep = nil }, func(p *SVParams) { p.Restricted = true })
+	return fs
+}
+
+func genSV(r *lib.Rand, h *History, i int) {
+	sweep := -1
+	if i < len(svSweep()) {
+		sweep = i
+	}
+	genSVat(r, h, sweep)
+}
+
+func genSVat(r *lib.Rand, h *History, sweep int) {
 	p := SVParams{MaxTO: 100, Mult: 1000, MinDep: []Coin{{1, sp("5000")}}, Tax: sp("50000000000000000"), Slash: sp("1000000000000000"),
 		Complaint: int64(15 * 24 * time.Hour), Arbitr: int64(5 * 24 * time.Hour), TxSize: 4000, Base: 1, Restricted: false}
 	nvar := 1 + r.Weighted(6, 2, 1)
 	if r.Chance(1, 10) {
 		nvar = 0
+	}
+	if sweep >= 0 {
+		nvar = 0
+		svSweep()[sweep](&p)
+		h.Via = sweepVia(sweep)
 	}
 	for v := 0; v < nvar; v++ {
 		switch r.Weighted(2, 3, 3, 4, 4, 1, 1, 1, 2, 1) {
